@@ -196,6 +196,38 @@ def positional_cases(maxlen):
                 yield (base, True, list(seq) + [(52, 0)])
 
 
+KNOWN_UF = "C06/update-filtered-policies-not-all-or-nothing"
+
+
+def uf_atomic_spec(kind, rows, lf, ops, obs, impl):
+    """'a batch call either applies to all of its rules or changes nothing', read for update_filtered_policies: a call that
+    reports failure leaves the stored rules as they were; a call that reports success leaves none of the selected rules
+    and all of the new ones"""
+    out = []
+    for i, (op, o) in enumerate(zip(ops, obs)):
+        if op[0] != 8 or o[0][0] != 0:
+            continue
+        before = obs[i - 1][3] if i > 0 else [r for pt, r in rows if pt == 0]
+        after = o[3]
+        if not truthy(o[0]) and after != before:
+            out.append((i, "update_filtered_policies reported failure but the stored rules changed", KNOWN_UF))
+            return out
+        if truthy(o[0]) and any(n not in after for n in op[1]):
+            out.append((i, "update_filtered_policies reported success but a new rule is not stored", KNOWN_UF))
+            return out
+    return out
+
+
+def known_probe_uf(chk):
+    """the listed finding, replayed on every run (memory only, so the adapter side - C09/update-filtered-policies - plays no part)"""
+    A = mgmt.ATOMS.a
+    kind = mgmt.KINDS["acl"].with_(adapter=False)
+    rs = [[A("alice"), A("data1"), A("read")], [A("alice"), A("data2"), A("read")], [A("bob"), A("data1"), A("read")]]
+    for new in ([], [[A("bob"), A("data1"), A("read")], [A("carol"), A("x"), A("y")]]):
+        ops = [(2, 0, rs), (8, new, 0, [A("alice")]), (52, 0)]
+        mgmt.run_cases(chk, kind, [([], False, ops)], uf_atomic_spec, label="known-finding-probe-update-filtered", compare_model=False)
+
+
 def padded_cases(maxlen):
     """field values that differ only by surrounding blanks are DIFFERENT values: every entry point must store, find,
     remove and replace exactly the rule it was given (memory only: the bundled adapters trim on load by design, C10)"""
@@ -214,6 +246,7 @@ def padded_cases(maxlen):
 
 def run(chk, n_random, exh_len):
     rng = chk.rng
+    known_probe_uf(chk)
     pad = list(padded_cases(3))
     mgmt.run_cases(chk, mgmt.KINDS["acl"].with_(adapter=False), pad, spec_check, label="padded-names-len<=3")
     chk.extra.setdefault("strata", {})["padded_names_len<=3"] = len(pad)
